@@ -164,6 +164,86 @@ class State:
                 return 'FAIL name %r is not a name that was given or generated (%s)' % (s, t)
         return 'ok'
 
+    def o_api(self, h):
+        """the remaining public methods agree with the ones the scripts exercise (synonyms, dict-like interface,
+        predicates, ensureBasis, isChain); mutating ones are tried on a deep copy"""
+        c = self.C(h)
+        ss = B.simplices(c)
+        if len(c) != len(ss) or c.numberOfSimplices() != len(ss) or sum(c.numberOfSimplicesOfOrder()) != len(ss):
+            return 'FAIL len()/numberOfSimplices() disagree with simplices()'
+        for s in ss:
+            if set(c.faceOf(s)) != set(c.cofaces(s)):
+                return 'FAIL faceOf(%r) != cofaces' % (s,)
+            if c[s] is not c.getAttributes(s) or not c.containsSimplex(s) or s not in c:
+                return 'FAIL dict-like access to %r' % (s,)
+            if not c.containsSimplexWithBasis(list(c.basisOf(s))):
+                return 'FAIL containsSimplexWithBasis(basis of %r)' % (s,)
+        if c.allSimplices(lambda cc, x: True) != ss or c.allSimplices(lambda cc, x: True, reverse=True) != c.simplices(reverse=True):
+            return 'FAIL allSimplices with a constant predicate'
+        for k in range(B.maxOrder(c) + 1):
+            want = [x for x in ss if c.orderOf(x) == k]
+            if c.allSimplices(lambda cc, x: cc.orderOf(x) == k) != want:
+                return 'FAIL allSimplices by order'
+            a = c.anySimplex(lambda cc, x: cc.orderOf(x) == k)
+            if a not in want:
+                return 'FAIL anySimplex by order returned %r' % (a,)
+            if want and (not c.isChain(want) or not c.isChain(want, p=k) or c.isChain(want, p=k + 1)):
+                return 'FAIL isChain on the simplices of order %d' % k
+        if c.anySimplex(lambda cc, x: False) is not None:
+            return 'FAIL anySimplex with a false predicate'
+        pts = B.simplicesOfOrder(c, 0)
+        if not c.isBasis(pts) or (len(ss) > len(pts) and c.isBasis([ss[-1]])) or c.isBasis(pts + ['no such point']):
+            return 'FAIL isBasis'
+        if ss:
+            d = copy.deepcopy(c); victim = ss[len(ss) // 2]
+            e = copy.deepcopy(c)
+            del d[victim]; e.deleteSimplex(victim)
+            if full_state(d) != full_state(e):
+                return 'FAIL del c[s] differs from deleteSimplex(s)'
+            d = copy.deepcopy(c)
+            d.ensureBasis(pts + ['fresh point'], attr={'k': 1})
+            if B.simplices(d)[:len(pts)] != pts or 'fresh point' not in d or d['fresh point'] != {'k': 1} or len(d) != len(c) + 1:
+                return 'FAIL ensureBasis did not add exactly the missing point'
+            hi = [x for x in ss if c.orderOf(x) > 0]
+            if hi:
+                d = copy.deepcopy(c)
+                try:
+                    d.ensureBasis(pts[:1] + [hi[0]])
+                    return 'FAIL ensureBasis accepted a non-point'
+                except ValueError:
+                    pass
+        return 'ok'
+
+    def o_fapi(self, h):
+        """the Filtration methods the scripts do not call directly"""
+        f = copy.deepcopy(self.C(h))
+        inds = f.indices()
+        if f.indices(reverse=True) != list(reversed(inds)):
+            return 'FAIL indices(reverse=True)'
+        for i in inds:
+            if not f.isIndex(i):
+                return 'FAIL isIndex(%r)' % (i,)
+            a = f.simplicesAddedAtIndex(i); b = f.simplicesAddedAtIndex(i, reverse=True)
+            if set(a) != set(b) or [B.orderOf(f, s) for s in b] != sorted((B.orderOf(f, s) for s in b), reverse=True):
+                return 'FAIL simplicesAddedAtIndex(reverse=True)'
+        if f.isIndex(12345):
+            return 'FAIL isIndex of a value that is not an index'
+        try:
+            f.isIndex(12345, fatal=True)
+            return 'FAIL isIndex(fatal=True) did not raise'
+        except ValueError:
+            pass
+        for s in B.simplices(f):
+            if not f.containsSimplexAtSomeIndex(s):
+                return 'FAIL containsSimplexAtSomeIndex(%r)' % (s,)
+            if (s in f) != f.containsSimplex(s) or (f.containsSimplex(s) != (f.addedAtIndex(s) <= f.getIndex())):
+                return 'FAIL containsSimplex(%r) at the current index' % (s,)
+        if f.containsSimplexAtSomeIndex('no such simplex'):
+            return 'FAIL containsSimplexAtSomeIndex of an unknown name'
+        if len(f) != len(f.simplices()) or f.numberOfSimplices() != len(f.simplices()):
+            return 'FAIL len()/numberOfSimplices() of the filtration'
+        return 'ok'
+
     # ---- snapshots (C02, C05, C08) -----------------------------------------------------------------------
     def o_snap(self, *hs):
         for h in hs:
@@ -841,6 +921,14 @@ class State:
             return 'FAIL integrate = %r, level-set sum gives %r' % (got, lv)
         if full_state(c) != before:
             return 'FAIL integrate modified its argument'
+        I = EulerIntegrator(k, dflt)
+        for s in B.simplices(c):
+            if I.metric(c, s) != B.getAttributes(c, s).get(k, dflt):
+                return 'FAIL metric(%r)' % (s,)
+        d = copy.deepcopy(c)
+        ls = I.levelSet(d, 0)
+        if {x for x in B.simplices(ls)} != {x for x, bs in named(c).items() if all(hgt(p) > 0 for p in bs)}:
+            return 'FAIL levelSet(c, 0)'
         counts = B.numberOfSimplicesOfOrder(c)
         if B.eulerCharacteristic(c) != sum((-1) ** k_ * n for k_, n in enumerate(counts)):
             return 'FAIL eulerCharacteristic is not the alternating sum of counts'
@@ -1008,6 +1096,13 @@ class State:
                     except ValueError:
                         pass
                 break
+        if e.complex() is not c or e.origin() != [0.0] * e.dimension():
+            return 'FAIL complex()/origin()'
+        if pts:
+            sub = pts[:max(1, len(pts) // 2)]
+            got = e.positionsOf(sub)
+            if set(got.keys()) != set(sub) or any(got[s] != e.positionOf(s) for s in sub):
+                return 'FAIL positionsOf(subset)'
         d = e.dimension()
         p = [0.0] * d; q = [3.0] + [4.0] * (1 if d > 1 else 0) + [0.0] * max(0, d - 2)
         want = math.sqrt(sum((a - b) ** 2 for a, b in zip(p, q)))
